@@ -172,4 +172,21 @@ def ListOfDicts_semi_join_signature : List String := ["self", "other", "*by"]
 /-- the calls of dataiter/list_of_dicts.py: ListOfDicts.semi_join in the order Python makes them along the source text -/
 def ListOfDicts_semi_join_call_order : List String := ["self._split_join_by", "operator.itemgetter", "operator.itemgetter", "map", "set", "extract1"]
 
+/-- dataiter/list_of_dicts.py: ListOfDicts.split (sha256 of the function source: a3208cbb34d7f6e8) -/
+def ListOfDicts_split (truth : Term → Bool) : Out :=
+  let extract' : Term := (Term.app "operator.itemgetter" [(Term.app "*" [(Term.sym "by")])]);
+  let indices_by_group' : Term := (Term.sym "{}");
+  let eff0 : Term := (Term.app "for" [(Term.app "tuple" [(Term.sym "i"), (Term.sym "item")]), (Term.app "enumerate" [(Term.sym "self")]), (Term.app "block" [(Term.app "assign" [(Term.sym "id"), (Term.app "call" [extract', (Term.sym "item")])]), (Term.app ".append" [(Term.app ".setdefault" [indices_by_group', (Term.sym "id"), (Term.app "list" [])]), (Term.sym "i")])])]);
+  let id' : Term := (Term.app "value-after-loop" [(Term.sym "id"), eff0]);
+  Out.ret [eff0] (Term.app "list()" [(Term.app ".values" [indices_by_group'])])
+
+/-- the decorators of dataiter/list_of_dicts.py: ListOfDicts.split, outermost first -/
+def ListOfDicts_split_decorators : List String := []
+
+/-- the signature of dataiter/list_of_dicts.py: ListOfDicts.split: parameters in order, with the source text of their defaults -/
+def ListOfDicts_split_signature : List String := ["self", "*by"]
+
+/-- the calls of dataiter/list_of_dicts.py: ListOfDicts.split in the order Python makes them along the source text -/
+def ListOfDicts_split_call_order : List String := ["operator.itemgetter", "enumerate", "extract", "indices_by_group.setdefault", "indices_by_group.setdefault(id, []).append", "indices_by_group.values", "list"]
+
 end DI.Gen
